@@ -63,4 +63,10 @@ META = {
         "note": "supported denominators taken from the rustdoc list {2,3,4,5,8,10,16,32,64}",
         "technique": "runtime monitoring: direct arithmetic oracle on returned values",
     },
+    "C13": {
+        "text": "Reference-arithmetic monitor over a catalogue of documented and out-of-form values for the standard metadata keys, through both metadata syntaxes and four converters, in both build profiles (overflow panics vs silent wraps).",
+        "design_ref": "DESIGN.md §6 C13",
+        "note": "trusts the catalogue's reading of the documented forms (rustdoc of CooklangValueExt and NameAndUrl::parse, extensions.md table)",
+        "technique": "runtime monitoring: reference-arithmetic oracle + accessor/diagnostic agreement",
+    },
 }
